@@ -1,6 +1,260 @@
-"""Determinism of the generator path: order-sensitive consumers of sets (filled in below)."""
+"""C16: determinism of the generation step under hash randomisation.
+
+`str` hashes differ between interpreter runs, so the iteration order of a set of strings does.  The generated module must not
+depend on it.  This module finds, syntactically, every place on the generator path where a set-typed expression is iterated or
+otherwise consumed in an order-sensitive way, and compares the inventory with an audited table: each audited site carries the
+reason why the order cannot reach the output; a site that is not in the table is an obligation that fails (a new source of
+nondeterminism has to be audited before C16 can be claimed again).  Order-insensitive consumers (sorted, min, max, len, any, all,
+set/frozenset construction, membership, set algebra, `|=`/update/add into a set) are accepted without audit.
+
+The type inference is deliberately simple (names bound to set displays / comprehensions / set() / frozenset() / set algebra,
+annotations mentioning Set / AbstractSet / FrozenSet / set[...], calls of `.initial_names()`, elements of containers annotated as
+containers of sets); what it cannot type is not reported.  Regeneration under several PYTHONHASHSEED values is the bounded
+evidence next to it.
+"""
 from __future__ import annotations
+
+import ast
+import os
+
+FILES = ["tasks/generator.py", "pegen/parser_generator.py", "pegen/python_generator.py", "pegen/sccutils.py", "pegen/grammar.py", "pegen/build.py",
+         "pegen/first_sets.py"]
+SETISH = ("Set[", "AbstractSet[", "FrozenSet[", "set[", "frozenset[", "MutableSet[")
+INSENSITIVE_CALLS = {"sorted", "min", "max", "len", "any", "all", "set", "frozenset", "sum", "bool", "isinstance"}
+
+# (file, function, source text of the iterated expression) -> why the iteration order cannot reach the generated text
+AUDITED = {
+    ("pegen/parser_generator.py", "compute_left_recursives", "scc"):
+        "loops over the members of an SCC only set flags on each member (left_recursive) or intersect candidate sets (leaders -= ...); "
+        "both are commutative, and the leader is then picked with min()",
+    ("pegen/parser_generator.py", "make_first_graph", "vertices"):
+        "only inserts missing keys with an empty set; the dict is used as a graph (membership / SCC computation), its key order is never printed",
+    ("pegen/sccutils.py", "strongly_connected_components", "edges[v]"):
+        "path-based SCC algorithm: the SET of components is order-independent; their emission order is consumed only by the flag-setting loop above",
+    ("pegen/sccutils.py", "strongly_connected_components", "vertices"):
+        "as above (dict keys view of the first graph)",
+    ("pegen/sccutils.py", "topsort", "set.union(*data.values()) - set(data.keys())"):
+        "adds missing keys; not on the path of tasks/generator.py (used by pegen's C generator only)",
+    ("pegen/sccutils.py", "find_cycles_in_scc", "graph[node]"):
+        "enumerates ALL cycles through `start`; the caller intersects over all of them (order-independent)",
+    ("pegen/sccutils.py", "find_cycles_in_scc", "dsts"):
+        "builds a filtered set per source vertex (set comprehension: order-free)",
+}
+
+
+def _ann_is_set(a) -> bool:
+    if a is None:
+        return False
+    t = ast.unparse(a)
+    return t.startswith(SETISH) or t in ("set", "frozenset", "Set", "AbstractSet", "FrozenSet")
+
+
+def _ann_elem_is_set(a) -> bool:
+    """List[AbstractSet[str]], Dict[str, AbstractSet[str]], Iterable[Set[...]] ...: the elements / values are sets"""
+    if a is None:
+        return False
+    t = ast.unparse(a)
+    inner = t[t.find("[") + 1:] if "[" in t else ""
+    return any(s in inner for s in SETISH)
+
+
+SET_ATTRS: set = set()      # attribute names assigned / annotated as sets in some class on the generator path (x.<attr> is then a set)
+RETURNS: dict = {}          # function / method name -> "set" | "elems" (from return annotations on the generator path)
+
+
+class _Fn(ast.NodeVisitor):
+    def __init__(self, rel, fn, class_attrs):
+        self.rel, self.fn = rel, fn
+        self.sets = set(class_attrs)            # expressions (source text) known to denote sets
+        self.elem_sets = set()                  # containers whose elements are sets
+        self.sites = []
+        a = fn.args
+        for x in a.posonlyargs + a.args + a.kwonlyargs:
+            if _ann_is_set(x.annotation):
+                self.sets.add(x.arg)
+            if _ann_elem_is_set(x.annotation):
+                self.elem_sets.add(x.arg)
+
+    def is_set(self, e) -> bool:
+        if isinstance(e, (ast.Set, ast.SetComp)):
+            return True
+        if isinstance(e, ast.Call):
+            f = e.func
+            if isinstance(f, ast.Name) and f.id in ("set", "frozenset"):
+                return True
+            nm = f.id if isinstance(f, ast.Name) else (f.attr if isinstance(f, ast.Attribute) else None)
+            if RETURNS.get(nm) == "set":
+                return True
+            if isinstance(f, ast.Attribute) and f.attr in ("initial_names", "union", "intersection", "difference", "copy") and (f.attr == "initial_names" or self.is_set(f.value)
+                                                                                                                           or ast.unparse(f.value) == "set"):
+                return True
+            if isinstance(f, ast.Attribute) and f.attr in ("keys",) and False:
+                return False
+        if isinstance(e, ast.BinOp) and isinstance(e.op, (ast.BitOr, ast.BitAnd, ast.Sub, ast.BitXor)):
+            return self.is_set(e.left) or self.is_set(e.right)
+        if isinstance(e, ast.Subscript) and ast.unparse(e.value) in self.elem_sets:
+            return True
+        if isinstance(e, ast.Attribute) and e.attr in SET_ATTRS:
+            return True
+        try:
+            return ast.unparse(e) in self.sets
+        except Exception:       # noqa: BLE001
+            return False
+
+    def bind(self, target, value_is_set, elem=False):
+        if isinstance(target, ast.Name):
+            (self.elem_sets if elem else self.sets).add(target.id) if value_is_set else None
+        elif isinstance(target, ast.Attribute):
+            (self.elem_sets if elem else self.sets).add(ast.unparse(target)) if value_is_set else None
+
+    def visit_FunctionDef(self, n):
+        # nested functions share what the enclosing function knows about its names
+        for x in n.args.posonlyargs + n.args.args + n.args.kwonlyargs:
+            if _ann_is_set(x.annotation):
+                self.sets.add(x.arg)
+            if _ann_elem_is_set(x.annotation):
+                self.elem_sets.add(x.arg)
+        self.generic_visit(n)
+
+    visit_AsyncFunctionDef = visit_FunctionDef
+
+    def is_elems(self, e) -> bool:
+        if isinstance(e, ast.Call):
+            f = e.func
+            nm = f.id if isinstance(f, ast.Name) else (f.attr if isinstance(f, ast.Attribute) else None)
+            if RETURNS.get(nm) == "elems":
+                return True
+            if nm in ("list", "tuple", "sorted", "reversed") and e.args:
+                return self.is_elems(e.args[0])
+        try:
+            return ast.unparse(e) in self.elem_sets
+        except Exception:       # noqa: BLE001
+            return False
+
+    def visit_Assign(self, n):
+        for t in n.targets:
+            self.bind(t, self.is_set(n.value))
+            self.bind(t, self.is_elems(n.value), elem=True)
+            if isinstance(t, ast.Tuple) and isinstance(n.value, ast.Tuple):
+                for tt, vv in zip(t.elts, n.value.elts):
+                    self.bind(tt, self.is_set(vv))
+            # chained: graph[k] = names = rhs.initial_names()
+        self.generic_visit(n)
+
+    def visit_AnnAssign(self, n):
+        if _ann_is_set(n.annotation) or (n.value is not None and self.is_set(n.value)):
+            self.bind(n.target, True)
+        if _ann_elem_is_set(n.annotation):
+            self.bind(n.target, True, elem=True)
+        self.generic_visit(n)
+
+    def visit_AugAssign(self, n):
+        if self.is_set(n.value) and isinstance(n.op, (ast.BitOr, ast.BitAnd, ast.Sub)):
+            self.bind(n.target, True)
+        self.generic_visit(n)
+
+    def _site(self, it, node, how):
+        self.sites.append({"file": self.rel, "function": self.fn.name, "iter": ast.unparse(it), "line": node.lineno, "how": how})
+
+    def visit_For(self, n):
+        if self.is_elems(n.iter):
+            self.bind(n.target, True)            # for scc in sccs: scc is a set
+        if self.is_set(n.iter):
+            self._site(n.iter, n, "for-loop")
+        self.generic_visit(n)
+
+    def _comp(self, n):
+        for g in n.generators:
+            if self.is_set(g.iter) and not isinstance(n, ast.SetComp):
+                self._site(g.iter, n, type(n).__name__)
+        self.generic_visit(n)
+
+    visit_ListComp = visit_GeneratorExp = visit_DictComp = _comp
+
+    def visit_SetComp(self, n):
+        self.generic_visit(n)                    # a set built from a set: order-free
+
+    def visit_Call(self, n):
+        f = n.func
+        name = f.id if isinstance(f, ast.Name) else (f.attr if isinstance(f, ast.Attribute) else "")
+        if name in ("list", "tuple", "iter", "next", "enumerate", "zip") and n.args and self.is_set(n.args[0]):
+            self._site(n.args[0], n, name + "()")
+        if name == "join" and n.args and self.is_set(n.args[0]):
+            self._site(n.args[0], n, "str.join")
+        if name == "pop" and isinstance(f, ast.Attribute) and not n.args and self.is_set(f.value):
+            self._site(f.value, n, "set.pop()")
+        if name in INSENSITIVE_CALLS:
+            # the argument is consumed without regard to order: do not descend into a generator expression over a set
+            for a in n.args:
+                if isinstance(a, (ast.GeneratorExp, ast.ListComp)):
+                    for g in a.generators:
+                        self.visit(g.iter)
+                    continue
+                self.visit(a)
+            return
+        self.generic_visit(n)
+
+
+def inventory(repo: str):
+    sites = []
+    RETURNS.clear()
+    SET_ATTRS.clear()
+    for rel in FILES:
+        path = os.path.join(repo, rel)
+        if os.path.exists(path):
+            for fn in ast.walk(ast.parse(open(path, encoding="utf-8").read())):
+                if isinstance(fn, (ast.FunctionDef, ast.AsyncFunctionDef)) and fn.returns is not None:
+                    if _ann_is_set(fn.returns):
+                        RETURNS[fn.name] = "set"
+                    elif _ann_elem_is_set(fn.returns):
+                        RETURNS[fn.name] = "elems"
+            for m in ast.walk(ast.parse(open(path, encoding="utf-8").read())):
+                if isinstance(m, ast.AnnAssign) and isinstance(m.target, ast.Attribute) and _ann_is_set(m.annotation):
+                    SET_ATTRS.add(m.target.attr)
+    for rel in FILES:
+        path = os.path.join(repo, rel)
+        if not os.path.exists(path):
+            continue
+        tree = ast.parse(open(path, encoding="utf-8").read())
+        for cls in [None] + [c for c in ast.walk(tree) if isinstance(c, ast.ClassDef)]:
+            body = tree.body if cls is None else cls.body
+            attrs = set()
+            if cls is not None:
+                for m in ast.walk(cls):
+                    if isinstance(m, ast.AnnAssign) and isinstance(m.target, ast.Attribute) and (_ann_is_set(m.annotation)):
+                        attrs.add(ast.unparse(m.target))
+                    if isinstance(m, ast.Assign) and len(m.targets) == 1 and isinstance(m.targets[0], ast.Attribute) and isinstance(m.value, ast.Call) \
+                            and isinstance(m.value.func, ast.Name) and m.value.func.id in ("set", "frozenset"):
+                        attrs.add(ast.unparse(m.targets[0]))
+            for fn in body:
+                if isinstance(fn, (ast.FunctionDef, ast.AsyncFunctionDef)):
+                    v = _Fn(rel, fn, attrs)
+                    v.visit(fn)
+                    sites.extend(v.sites)
+    return sites
 
 
 def check_generator_path(repo: str):
-    return []
+    from checks.common import DISCHARGED, FAILED, Obligation
+    out = []
+    sites = inventory(repo)
+    seen = set()
+    for s in sites:
+        key = (s["file"], s["function"], s["iter"])
+        if key in seen:
+            continue
+        seen.add(key)
+        oid = "C16.setorder." + s["file"].replace("/", "_").replace(".py", "") + "." + s["function"] + "." + "".join(c if c.isalnum() else "_" for c in s["iter"])[:40]
+        desc = f"{s['file']}:{s['function']} consumes the set `{s['iter']}` in iteration order ({s['how']}, line {s['line']}): the order cannot reach the generated module"
+        if key in AUDITED:
+            out.append(Obligation(oid, "determinism", desc + " -- audited: " + AUDITED[key], DISCHARGED, "audited-inventory", function=f"{s['file']}:{s['function']}"))
+        else:
+            out.append(Obligation(oid, "determinism", desc, FAILED, "audited-inventory",
+                                  detail="order-sensitive consumption of a set on the generator path that is not in the audited table "
+                                         "(str hashes are randomised per interpreter run: regenerating may produce a different module)",
+                                  witness=s, function=f"{s['file']}:{s['function']}"))
+    out.append(Obligation("C16.setorder.inventory", "determinism",
+                          f"inventory of order-sensitive consumers of sets on the generator path: {len(seen)} site(s) in {len(FILES)} files, all audited",
+                          DISCHARGED if all(o.status == DISCHARGED for o in out) else FAILED, "audited-inventory",
+                          detail="" if all(o.status == DISCHARGED for o in out) else "unaudited sites present"))
+    return out
